@@ -1,3 +1,856 @@
+(* C09 -- proofs over Model/C09.v *)
+From Coq Require Import ZArith List Bool Lia ZifyBool.
 From PV Require Import Bytes C09.
+Import ListNotations.
 Open Scope Z_scope.
-Lemma c09_stub : True. Proof. exact I. Qed.
+Ltac Zify.zify_post_hook ::= Z.to_euclidean_division_equations.
+
+(* ---------------------------------------------------------------------------------------- *)
+(* tactics *)
+
+Ltac dm_hyp H :=
+  repeat match type of H with
+         | context [if ?b then _ else _] => destruct b eqn:?
+         | context [match ?x with _ => _ end] => destruct x eqn:?
+         end.
+
+Ltac unf := unfold handle, handlers, negotiate, parse_newkeys, enforce, set_expected, set_ctl, set_in, set_out in *.
+
+(* ---------------------------------------------------------------------------------------- *)
+(* emit / send1 frame lemmas *)
+
+Lemma send1_frame c st t :
+  let st' := fst (send1 c st t) in
+  agreed st' = agreed st /\ kdone st' = kdone st /\ expected st' = expected st /\
+  kexinit_sent st' = kexinit_sent st /\ k_set st' = k_set st /\
+  seq_in st' = seq_in st /\ ep_in st' = ep_in st /\ g_in st' = g_in st /\ nrecv st' = nrecv st.
+Proof. unfold send1. destruct (t =? MSG_NEWKEYS); simpl; repeat split; reflexivity. Qed.
+
+Lemma emit_frame c ts : forall st st' ps,
+  emit c st ts = (st', ps) ->
+  agreed st' = agreed st /\ kdone st' = kdone st /\ expected st' = expected st /\
+  kexinit_sent st' = kexinit_sent st /\ k_set st' = k_set st /\
+  seq_in st' = seq_in st /\ ep_in st' = ep_in st /\ g_in st' = g_in st /\ nrecv st' = nrecv st.
+Proof.
+  induction ts as [|t r IH]; intros st st' ps H; simpl in H.
+  - inversion H; subst. repeat split; reflexivity.
+  - destruct (send1 c st t) as [st1 p] eqn:E1.
+    destruct (emit c st1 r) as [st2 ps2] eqn:E2.
+    inversion H; subst.
+    pose proof (send1_frame c st t) as F. rewrite E1 in F. simpl in F.
+    specialize (IH _ _ _ E2).
+    intuition congruence.
+Qed.
+
+Lemma emit_length c ts : forall st st' ps, emit c st ts = (st', ps) -> length ps = length ts.
+Proof.
+  induction ts as [|t r IH]; intros st st' ps H; simpl in H.
+  - inversion H; reflexivity.
+  - destruct (send1 c st t) as [st1 p]. destruct (emit c st1 r) as [st2 ps2] eqn:E2.
+    inversion H; subst. simpl. f_equal. eapply IH; eauto.
+Qed.
+
+(* ---------------------------------------------------------------------------------------- *)
+(* handle: what it can change *)
+
+Lemma handle_out_frame c st p s o st1 sends :
+  handle c st p s = (o, st1, sends) ->
+  seq_out st1 = seq_out st /\ ep_out st1 = ep_out st /\ g_out st1 = g_out st.
+Proof.
+  intro H. unf. dm_hyp H; inversion H; subst; simpl; auto.
+Qed.
+
+(* ---------------------------------------------------------------------------------------- *)
+(* Part 1: strict abort *)
+
+Lemma handle_strict_abort c st p s :
+  agreed st = true -> kdone st = false -> expected st <> [] ->
+  mem (p_type p) (expected st) = false ->
+  let o := fst (fst (handle c st p s)) in
+  o = AbortMOE \/ (p_type p = MSG_DISCONNECT /\ o = Closed).
+Proof.
+  intros Ha Hd He Hm. unfold handle, enforce. rewrite Ha, Hd, Hm. simpl.
+  destruct (p_type p =? MSG_IGNORE) eqn:E2; [left; reflexivity|].
+  destruct (p_type p =? MSG_DISCONNECT) eqn:E1; [right; split; [lia|reflexivity]|].
+  destruct (p_type p =? MSG_DEBUG) eqn:E4; [left; reflexivity|].
+  destruct (expected st) eqn:Ee; [congruence|]. simpl. left; reflexivity.
+Qed.
+
+Lemma step_strict_abort mac_ok c st p :
+  agreed st = true -> kdone st = false -> expected st <> [] ->
+  mem (p_type p) (expected st) = false ->
+  let o := fst (fst (step mac_ok c st p)) in
+  o = AbortMOE \/ (p_type p = MSG_DISCONNECT /\ o = Closed) \/
+  (readable mac_ok st p = false /\ o = AbortSSH).
+Proof.
+  intros Ha Hd He Hm. unfold step.
+  destruct (readable mac_ok st p) eqn:R; simpl; [|right; right; auto].
+  set (st0 := set_in st ((seq_in st + 1) mod SEQ_MOD) (ep_in st) (g_in st) (nrecv st + 1)).
+  pose proof (handle_strict_abort c st0 p (seq_in st)) as HS.
+  assert (agreed st0 = true) by (subst st0; simpl; auto).
+  assert (kdone st0 = false) by (subst st0; simpl; auto).
+  assert (expected st0 = expected st) by (subst st0; simpl; auto).
+  specialize (HS H H0). rewrite H1 in HS. specialize (HS He Hm).
+  destruct (handle c st0 p (seq_in st)) as [[o st1] sends]. simpl in HS.
+  destruct (emit c st1 sends) as [st2 outs]. simpl.
+  destruct HS as [HS|HS]; [left|right; left]; auto.
+Qed.
+
+(* reachable-state invariant while the initial kex is not done *)
+
+Definition Inv (st : peer) : Prop :=
+  kdone st = false ->
+  expected st <> [] /\ forallb kexmsg (expected st) = true /\
+  seq_in st = nrecv st /\ 0 <= nrecv st < SEQ_MOD /\ ep_in st = 0.
+
+Lemma kex_start_ok c : forall sends ex, kex_start c = (sends, ex) -> ex <> [] /\ forallb kexmsg ex = true.
+Proof.
+  intros sends ex. unfold kex_start. destruct (c_role c), (c_kex c); intro H; inversion H; subst;
+    split; try discriminate; reflexivity.
+Qed.
+
+Lemma kex_next_ok c t ok sends ex act :
+  kex_next c t ok = Some (sends, ex, act) -> ex <> [] /\ forallb kexmsg ex = true.
+Proof.
+  unfold kex_next. intro H. dm_hyp H; inversion H; subst; split; try discriminate; reflexivity.
+Qed.
+
+Lemma mem_forallb t l f : mem t l = true -> forallb f l = true -> f t = true.
+Proof.
+  unfold mem. intros Hm Hf. apply existsb_exists in Hm. destruct Hm as [x [Hin Hx]].
+  apply Z.eqb_eq in Hx. subst x. rewrite forallb_forall in Hf. auto.
+Qed.
+
+Lemma handle_inv c st p s o st1 sends :
+  Inv st -> handle c st p s = (o, st1, sends) -> o = Continue ->
+  (kdone st = false -> seq_in st = nrecv st -> 0 <= nrecv st < SEQ_MOD -> ep_in st = 0 -> True) ->
+  (kdone st1 = false ->
+   kdone st = false /\ expected st1 <> [] /\ forallb kexmsg (expected st1) = true /\
+   seq_in st1 = seq_in st /\ nrecv st1 = nrecv st /\ ep_in st1 = ep_in st).
+Proof.
+  intros HI H Ho _ Hd1.
+  unfold handle in H.
+  destruct (p_type p =? MSG_IGNORE) eqn:E2.
+  { inversion H; subst. destruct (HI Hd1) as (A & B & _). repeat split; auto. }
+  destruct (p_type p =? MSG_DISCONNECT) eqn:E1.
+  { inversion H; subst. discriminate. }
+  destruct (p_type p =? MSG_DEBUG) eqn:E4.
+  { inversion H; subst. destruct (HI Hd1) as (A & B & _). repeat split; auto. }
+  assert (Hd : kdone st = false).
+  { destruct (kdone st) eqn:K; auto. exfalso.
+    unf. dm_hyp H; inversion H; subst; simpl in *; congruence. }
+  destruct (HI Hd) as (Hne & Hall & _).
+  destruct (is_nil (expected st)) eqn:En.
+  { destruct (expected st); [congruence|discriminate]. }
+  destruct (mem (p_type p) (expected st)) eqn:Em; simpl in H.
+  2:{ destruct (agreed st); inversion H; subst; discriminate. }
+  pose proof (mem_forallb _ _ _ Em Hall) as Hk.
+  destruct ((30 <=? p_type p) && (p_type p <=? 41)) eqn:Er.
+  - destruct (kex_next c (p_type p) (p_ok p)) as [[[sd ex] act]|] eqn:Ek.
+    + inversion H; subst. simpl. apply kex_next_ok in Ek. destruct Ek. repeat split; auto.
+    + inversion H; subst. discriminate.
+  - (* t is 20 or 21 *)
+    unfold kexmsg in Hk.
+    assert (p_type p = 20 \/ p_type p = 21) as [T|T] by lia.
+    + unfold handlers in H. rewrite T in H. simpl in H. unfold negotiate in H.
+      dm_hyp H; inversion H; subst; try discriminate; simpl;
+        match goal with K : kex_start _ = _ |- _ => apply kex_start_ok in K; destruct K end;
+        repeat split; auto.
+    + unfold handlers in H. rewrite T in H. simpl in H. unfold parse_newkeys in H.
+      dm_hyp H; inversion H; subst; simpl in *; try discriminate.
+Qed.
+
+Lemma step_inv mac_ok c st p st' outs :
+  Inv st -> step mac_ok c st p = (Continue, st', outs) -> Inv st'.
+Proof.
+  intros HI H. unfold step in H.
+  destruct (readable mac_ok st p) eqn:R; simpl in H; [|discriminate].
+  set (st0 := set_in st ((seq_in st + 1) mod SEQ_MOD) (ep_in st) (g_in st) (nrecv st + 1)) in *.
+  destruct (handle c st0 p (seq_in st)) as [[o st1] sends] eqn:Eh.
+  destruct (emit c st1 sends) as [st2 outs2] eqn:Ee.
+  inversion H; subst o st2 outs2. clear H.
+  apply emit_frame in Ee. destruct Ee as (_ & F2 & F3 & _ & _ & F6 & F7 & _ & F9).
+  intro Hd. rewrite F2 in Hd.
+  assert (HI0 : Inv st0).
+  { intro K. subst st0. simpl in K. destruct (HI K) as (A & B & C & D & E).
+    simpl. repeat split; auto.
+    - unfold readable in R. rewrite K in R. simpl in R.
+      apply andb_true_iff in R. destruct R as [_ R]. rewrite andb_true_r in R.
+      apply negb_true_iff in R. apply Z.eqb_neq in R. rewrite C in *. unfold SEQ_MOD in *. lia.
+    - lia.
+    - unfold readable in R. rewrite K in R. simpl in R.
+      apply andb_true_iff in R. destruct R as [_ R]. rewrite andb_true_r in R.
+      apply negb_true_iff in R. apply Z.eqb_neq in R. rewrite C in *. unfold SEQ_MOD in *. lia. }
+  pose proof (handle_inv c st0 p (seq_in st) Continue st1 sends HI0 Eh eq_refl (fun _ _ _ _ => I) Hd)
+    as (K0 & A & B & C & D & E).
+  destruct (HI0 K0) as (_ & _ & C0 & D0 & E0).
+  rewrite F3, F6, F7, F9. repeat split; auto; try congruence; lia.
+Qed.
+
+Lemma local_inv c st ts st' outs : Inv st -> local c st ts = (st', outs) -> Inv st'.
+Proof.
+  intros HI H. unfold local in H.
+  apply emit_frame in H. destruct H as (_ & F2 & F3 & _ & _ & F6 & F7 & _ & F9).
+  intro K. rewrite F2 in K.
+  destruct (mem MSG_KEXINIT ts); simpl in *; destruct (HI K) as (A & B & C & D & E);
+    rewrite F3, F6, F7, F9; simpl; repeat split; auto; try lia.
+Qed.
+
+Lemma peer_run_inv mac_ok c ins : forall st st' outs,
+  Inv st -> peer_run mac_ok c st ins = (Continue, st', outs) -> Inv st'.
+Proof.
+  induction ins as [|i r IH]; intros st st' outs HI H; simpl in H.
+  - inversion H; subst; auto.
+  - destruct (do_input mac_ok c st i) as [[o st1] outs1] eqn:Ed.
+    destruct o; try discriminate.
+    destruct (peer_run mac_ok c st1 r) as [[o2 st2] outs2] eqn:Er.
+    inversion H; subst. eapply IH; [|exact Er].
+    destruct i as [p|ts]; simpl in Ed.
+    + eapply step_inv; eauto.
+    + destruct (local c st ts) as [sl ol] eqn:El. inversion Ed; subst. eapply local_inv; eauto.
+Qed.
+
+Lemma start_inv c : Inv (fst (start c)).
+Proof.
+  unfold start. destruct (emit c peer0 [MSG_KEXINIT]) as [st ps] eqn:E. simpl.
+  apply emit_frame in E. destruct E as (_ & F2 & F3 & _ & _ & F6 & F7 & _ & F9).
+  intro K. rewrite F3, F6, F7, F9. simpl. unfold SEQ_MOD. repeat split; try discriminate; try lia.
+Qed.
+
+Lemma session_inv mac_ok c ins st outs :
+  session mac_ok c ins = (Continue, st, outs) -> Inv st.
+Proof.
+  unfold session. pose proof (start_inv c) as HS.
+  destruct (start c) as [st0 outs0]. simpl in HS.
+  destruct (peer_run mac_ok c st0 ins) as [[o st1] outs1] eqn:E.
+  intro H. inversion H; subst. eapply peer_run_inv; eauto.
+Qed.
+
+(* the strict-abort theorem over every reachable state *)
+Lemma strict_abort mac_ok c ins st outs p :
+  session mac_ok c ins = (Continue, st, outs) ->
+  agreed st = true -> kdone st = false ->
+  mem (p_type p) (expected st) = false ->
+  let o := fst (fst (step mac_ok c st p)) in
+  o = AbortMOE \/ (p_type p = MSG_DISCONNECT /\ o = Closed) \/
+  (readable mac_ok st p = false /\ o = AbortSSH).
+Proof.
+  intros HS Ha Hd Hm. apply session_inv in HS. destruct (HS Hd) as (A & _).
+  apply step_strict_abort; auto.
+Qed.
+
+(* IGNORE, DEBUG, UNIMPLEMENTED, unknown types ... are never the next expected kex message *)
+Lemma never_expected mac_ok c ins st outs t :
+  session mac_ok c ins = (Continue, st, outs) -> kdone st = false ->
+  kexmsg t = false -> mem t (expected st) = false.
+Proof.
+  intros HS Hd Hk. apply session_inv in HS. destruct (HS Hd) as (_ & B & _).
+  destruct (mem t (expected st)) eqn:M; auto.
+  pose proof (mem_forallb _ _ _ M B). congruence.
+Qed.
+
+Lemma negotiate_not_first c st p s :
+  kdone st = false -> c_adv c = true -> p_marker p = 1 -> s <> 0 ->
+  fst (fst (negotiate c st p s)) = AbortMOE.
+Proof.
+  intros Hd Ha Hm Hs. unfold negotiate. rewrite Hm, Ha, Hd. simpl.
+  destruct (s =? 0) eqn:E; [lia|]. simpl. reflexivity.
+Qed.
+
+(* a KEXINIT that is not the first packet *)
+Lemma kexinit_not_first mac_ok c ins st outs p :
+  session mac_ok c ins = (Continue, st, outs) ->
+  kdone st = false -> nrecv st <> 0 -> c_adv c = true ->
+  p_type p = MSG_KEXINIT -> p_marker p = 1 ->
+  let o := fst (fst (step mac_ok c st p)) in
+  o <> Continue /\
+  (readable mac_ok st p = true -> expected st = [MSG_KEXINIT] -> o = AbortMOE).
+Proof.
+  intros HS Hd Hn Hadv Ht Hmk. apply session_inv in HS.
+  destruct (HS Hd) as (A & B & C & D & E).
+  unfold step. destruct (readable mac_ok st p) eqn:R; simpl.
+  2:{ split; [discriminate|intro; discriminate]. }
+  set (st0 := set_in st ((seq_in st + 1) mod SEQ_MOD) (ep_in st) (g_in st) (nrecv st + 1)).
+  assert (Hh : forall o st1 sends, handle c st0 p (seq_in st) = (o, st1, sends) ->
+               o <> Continue /\ (expected st = [MSG_KEXINIT] -> o = AbortMOE)).
+  { intros o st1 sends H. unfold handle in H. rewrite Ht in H.
+    assert (Ex : expected st0 = expected st) by reflexivity. rewrite Ex in H.
+    change (MSG_KEXINIT =? MSG_IGNORE) with false in H.
+    change (MSG_KEXINIT =? MSG_DISCONNECT) with false in H.
+    change (MSG_KEXINIT =? MSG_DEBUG) with false in H. cbv iota in H.
+    destruct (expected st) as [|e0 er] eqn:Ee; [congruence|].
+    change (is_nil (e0 :: er)) with false in H. cbv iota in H.
+    destruct (mem MSG_KEXINIT (e0 :: er)) eqn:M.
+    2:{ change (negb false) with true in H. cbv iota in H.
+        destruct (agreed st0); inversion H; subst; (split; [discriminate|]);
+          intro X; inversion X; subst; cbv in M; discriminate. }
+    change (negb true) with false in H. cbv iota in H.
+    change ((30 <=? MSG_KEXINIT) && (MSG_KEXINIT <=? 41)) with false in H. cbv iota in H.
+    unfold handlers in H. rewrite Ht in H.
+    change (MSG_KEXINIT =? MSG_KEXINIT) with true in H. cbv iota in H.
+    pose proof (negotiate_not_first c (set_expected st0 []) p (seq_in st)) as N.
+    rewrite H in N. simpl in N. split; [|intros _]; rewrite N; auto; try discriminate; lia. }
+  destruct (handle c st0 p (seq_in st)) as [[o st1] sends] eqn:Eh.
+  destruct (emit c st1 sends) as [st2 outs2]. simpl.
+  destruct (Hh _ _ _ eq_refl). split; auto.
+Qed.
+
+(* ---------------------------------------------------------------------------------------- *)
+(* Part 2: sequence numbers restart at zero after every NEWKEYS *)
+
+Lemma handle_in_effect c st p s st1 sends :
+  handle c st p s = (Continue, st1, sends) ->
+  if p_type p =? MSG_NEWKEYS
+  then ep_in st1 = ep_in st + 1 /\ g_in st1 = (g_in st && agreed st) /\
+       (agreed st = true -> seq_in st1 = 0) /\ agreed st1 = agreed st
+  else ep_in st1 = ep_in st /\ seq_in st1 = seq_in st /\ g_in st1 = g_in st.
+Proof.
+  intro H. unfold handle in H.
+  destruct (p_type p =? MSG_NEWKEYS) eqn:T.
+  - apply Z.eqb_eq in T. rewrite T in H. simpl in H.
+    unfold handlers in H. rewrite T in H. simpl in H. unfold parse_newkeys in H.
+    unf. dm_hyp H; inversion H; subst; simpl in *; try discriminate;
+      repeat split; auto; try (intro; simpl; congruence); try (rewrite Heqb2; reflexivity);
+      try match goal with K : agreed _ = _ |- _ => rewrite K; reflexivity end.
+  - unfold handlers in H. rewrite T in H. unf.
+    dm_hyp H; inversion H; subst; simpl in *; try discriminate; repeat split; auto.
+Qed.
+
+Lemma seq_reset_in mac_ok c st p st' outs :
+  step mac_ok c st p = (Continue, st', outs) ->
+  p_type p = MSG_NEWKEYS -> agreed st = true ->
+  seq_in st' = 0 /\ ep_in st' = ep_in st + 1.
+Proof.
+  intros H T Ha. unfold step in H.
+  destruct (readable mac_ok st p); simpl in H; [|discriminate].
+  set (st0 := set_in st ((seq_in st + 1) mod SEQ_MOD) (ep_in st) (g_in st) (nrecv st + 1)) in *.
+  destruct (handle c st0 p (seq_in st)) as [[o st1] sends] eqn:Eh.
+  destruct (emit c st1 sends) as [st2 outs2] eqn:Ee.
+  inversion H; subst. apply emit_frame in Ee. destruct Ee as (_ & _ & _ & _ & _ & F6 & F7 & _).
+  apply handle_in_effect in Eh. rewrite T in Eh. simpl in Eh.
+  destruct Eh as (A & _ & B & _). rewrite F6, F7. split; [apply B; auto|rewrite A; reflexivity].
+Qed.
+
+Lemma seq_reset_out c st :
+  agreed st = true ->
+  let '(st', q) := send1 c st MSG_NEWKEYS in
+  p_type q = MSG_NEWKEYS /\ p_mseq q = seq_out st /\ seq_out st' = 0 /\ ep_out st' = ep_out st + 1.
+Proof. intro Ha. unfold send1. simpl. rewrite Ha. simpl. auto. Qed.
+
+Lemma emit_head c ts st st' q ps :
+  emit c st ts = (st', q :: ps) -> p_mseq q = seq_out st /\ p_epoch q = ep_out st.
+Proof.
+  destruct ts as [|t r]; simpl; intro H; [inversion H|].
+  destruct (send1 c st t) as [st1 p] eqn:E1. destruct (emit c st1 r) as [st2 ps2].
+  inversion H; subst. unfold send1 in E1. destruct (t =? MSG_NEWKEYS); inversion E1; subst; simpl; auto.
+Qed.
+
+Lemma emit_newkeys_next c ts : forall st st' ps i q,
+  agreed st = true -> emit c st ts = (st', ps) ->
+  nth_error ps i = Some q -> p_type q = MSG_NEWKEYS ->
+  match nth_error ps (S i) with Some r => p_mseq r = 0 | None => seq_out st' = 0 end.
+Proof.
+  induction ts as [|t r IH]; intros st st' ps i q Ha H Hn Hq; simpl in H.
+  - inversion H; subst. destruct i; discriminate.
+  - destruct (send1 c st t) as [st1 p] eqn:E1. destruct (emit c st1 r) as [st2 ps2] eqn:E2.
+    inversion H; subst st2 ps. clear H.
+    pose proof (send1_frame c st t) as F. rewrite E1 in F. simpl in F. destruct F as (Fa & _).
+    destruct i as [|i]; simpl in Hn.
+    + inversion Hn; subst q. simpl.
+      assert (T : t = MSG_NEWKEYS).
+      { unfold send1 in E1. destruct (t =? MSG_NEWKEYS) eqn:X; inversion E1; subst; simpl in Hq; auto. }
+      subst t. pose proof (seq_reset_out c st Ha) as R. rewrite E1 in R. destruct R as (_ & _ & R0 & _).
+      destruct ps2 as [|r0 ps2].
+      * simpl. destruct r; simpl in E2; [inversion E2; subst; auto|].
+        destruct (send1 c st1 z); destruct (emit c p0 r); inversion E2.
+      * simpl. apply emit_head in E2. destruct E2. congruence.
+    + simpl. apply (IH st1 st' ps2 i q); auto. congruence.
+Qed.
+
+Lemma seq_reset_step mac_ok c st p o st' outs i q :
+  step mac_ok c st p = (o, st', outs) -> agreed st' = true ->
+  nth_error outs i = Some q -> p_type q = MSG_NEWKEYS ->
+  match nth_error outs (S i) with Some r => p_mseq r = 0 | None => seq_out st' = 0 end.
+Proof.
+  intros H Ha Hn Hq. unfold step in H.
+  destruct (readable mac_ok st p); simpl in H.
+  2:{ inversion H; subst. destruct i; discriminate. }
+  destruct (handle c _ p (seq_in st)) as [[o1 st1] sends] eqn:Eh.
+  destruct (emit c st1 sends) as [st2 outs2] eqn:Ee.
+  inversion H; subst.
+  pose proof (emit_frame _ _ _ _ _ Ee) as (Fa & _).
+  apply (emit_newkeys_next c sends st1 st' outs i q); auto. congruence.
+Qed.
+
+(* ---------------------------------------------------------------------------------------- *)
+(* Part 3: no shifted session *)
+
+Definition nxe (e : Z) (p : pkt) : Z := if p_type p =? MSG_NEWKEYS then e + 1 else e.
+Definition nxs (s : Z) (p : pkt) : Z := if p_type p =? MSG_NEWKEYS then 0 else s + 1.
+
+(* the stamps a strict sender puts on its protected packets: (epoch, seq) counts up, and after each
+   NEWKEYS the epoch advances and the sequence number restarts at zero *)
+Fixpoint stamp_ok (e s : Z) (l : list pkt) : Prop :=
+  match l with
+  | [] => True
+  | p :: r => p_epoch p = e /\ p_mseq p = s /\ stamp_ok (nxe e p) (nxs s p) r
+  end.
+Fixpoint walk (e s : Z) (l : list pkt) : Z * Z :=
+  match l with
+  | [] => (e, s)
+  | p :: r => walk (nxe e p) (nxs s p) r
+  end.
+
+Definition lexlt (e s e' s' : Z) : Prop := e < e' \/ (e = e' /\ s < s').
+Definition lexle (e s e' s' : Z) : Prop := e < e' \/ (e = e' /\ s <= s').
+
+Lemma walk_app a : forall e s b,
+  walk e s (a ++ b) = walk (fst (walk e s a)) (snd (walk e s a)) b.
+Proof. induction a as [|p a IH]; intros; simpl; auto. Qed.
+
+Lemma stamp_ok_app a : forall e s b,
+  stamp_ok e s (a ++ b) <-> stamp_ok e s a /\ stamp_ok (fst (walk e s a)) (snd (walk e s a)) b.
+Proof.
+  induction a as [|p a IH]; intros e s b; simpl.
+  - tauto.
+  - rewrite IH. tauto.
+Qed.
+
+Lemma nx_step e s p : 0 <= s -> lexlt e s (nxe e p) (nxs s p) /\ 0 <= nxs s p.
+Proof. unfold lexlt, nxe, nxs. destruct (p_type p =? MSG_NEWKEYS); lia. Qed.
+
+Lemma walk_mono l : forall e s, 0 <= s ->
+  lexle e s (fst (walk e s l)) (snd (walk e s l)) /\ 0 <= snd (walk e s l).
+Proof.
+  induction l as [|p l IH]; intros e s Hs; simpl.
+  - unfold lexle. lia.
+  - destruct (nx_step e s p Hs) as [A B]. destruct (IH (nxe e p) (nxs s p) B) as [C D].
+    split; auto. unfold lexlt, lexle in *. lia.
+Qed.
+
+(* everything in a stamped list is at or after its starting stamp; everything after the head is
+   strictly after *)
+Lemma stamp_ahead l : forall e s, stamp_ok e s l -> 0 <= s ->
+  forall r, In r l -> lexle e s (p_epoch r) (p_mseq r).
+Proof.
+  induction l as [|p l IH]; intros e s H Hs r Hin; simpl in *; [tauto|].
+  destruct H as (He & Hq & Hr). destruct Hin as [->|Hin].
+  - unfold lexle. lia.
+  - destruct (nx_step e s p Hs) as [A B]. specialize (IH _ _ Hr B r Hin).
+    unfold lexlt, lexle in *. lia.
+Qed.
+
+Lemma stamp_tail_ahead p l e s : stamp_ok e s (p :: l) -> 0 <= s ->
+  forall r, In r l -> lexlt e s (p_epoch r) (p_mseq r).
+Proof.
+  intros H Hs r Hin. simpl in H. destruct H as (_ & _ & Hr).
+  destruct (nx_step e s p Hs) as [A B].
+  pose proof (stamp_ahead _ _ _ Hr B r Hin). unfold lexlt, lexle in *. lia.
+Qed.
+
+(* everything in a stamped list is strictly before the stamp reached at its end *)
+Lemma stamp_behind l : forall e s, stamp_ok e s l -> 0 <= s ->
+  forall r, In r l -> lexlt (p_epoch r) (p_mseq r) (fst (walk e s l)) (snd (walk e s l)).
+Proof.
+  induction l as [|p l IH]; intros e s H Hs r Hin; simpl in *; [tauto|].
+  destruct H as (He & Hq & Hr). destruct (nx_step e s p Hs) as [A B].
+  destruct (walk_mono l (nxe e p) (nxs s p) B) as [C _].
+  destruct Hin as [<-|Hin].
+  - unfold lexlt, lexle in *. lia.
+  - apply IH; auto.
+Qed.
+
+Lemma stamp_bound l : forall e s, stamp_ok e s l -> 0 <= s ->
+  forall r, In r l -> p_mseq r < s + Z.of_nat (length l).
+Proof.
+  induction l as [|p l IH]; intros e s H Hs r Hin; simpl in *; [tauto|].
+  destruct H as (He & Hq & Hr). destruct Hin as [->|Hin]; [lia|].
+  destruct (nx_step e s p Hs) as [A B]. specialize (IH _ _ Hr B r Hin).
+  unfold nxs in *. destruct (p_type p =? MSG_NEWKEYS); lia.
+Qed.
+
+(* ---- the sender ---- *)
+Definition IS (so eo : Z) (go : bool) (outs : list pkt) : Prop :=
+  0 <= so <= Z.of_nat (length outs) /\ 0 <= eo /\
+  (go = true ->
+   (eo = 0 /\ filter enc outs = []) \/
+   (1 <= eo /\ stamp_ok 1 0 (filter enc outs) /\ walk 1 0 (filter enc outs) = (eo, so))).
+
+Lemma filter_enc_snoc pre q : filter enc (pre ++ [q]) = filter enc pre ++ (if enc q then [q] else []).
+Proof. rewrite filter_app. simpl. destruct (enc q); reflexivity. Qed.
+
+Lemma send1_IS c st t st' q pre :
+  IS (seq_out st) (ep_out st) (g_out st) pre ->
+  send1 c st t = (st', q) ->
+  Z.of_nat (length pre) + 1 < SEQ_MOD ->
+  IS (seq_out st') (ep_out st') (g_out st') (pre ++ [q]).
+Proof.
+  intros (Hb & He & Hg) H Hlen.
+  assert (Hq : p_epoch q = ep_out st /\ p_mseq q = seq_out st /\ p_type q = t).
+  { unfold send1 in H. destruct (t =? MSG_NEWKEYS); inversion H; subst; simpl; auto. }
+  destruct Hq as (Qe & Qs & Qt).
+  assert (Hn : (seq_out st + 1) mod SEQ_MOD = seq_out st + 1).
+  { apply Z.mod_small. lia. }
+  unfold IS. rewrite app_length. simpl. rewrite Nat2Z.inj_add. simpl (Z.of_nat 1).
+  assert (Hst : st' = fst (send1 c st t)) by (rewrite H; reflexivity).
+  clear H. unfold send1 in Hst. rewrite Hn in Hst.
+  destruct (t =? MSG_NEWKEYS) eqn:T; simpl in Hst; subst st'; simpl.
+  - split; [destruct (agreed st); lia|]. split; [lia|].
+    intro G. apply andb_true_iff in G. destruct G as [G Ha]. rewrite Ha.
+    right. split; [lia|]. rewrite filter_enc_snoc.
+    destruct (Hg G) as [(E0 & F0)|(E1 & S1 & W1)].
+    + assert (En : enc q = false) by (unfold enc; rewrite Qe, E0; reflexivity).
+      rewrite En, F0, E0. simpl. auto.
+    + assert (En : enc q = true) by (unfold enc; rewrite Qe; destruct (ep_out st =? 0) eqn:X; auto; lia).
+      rewrite En. split.
+      * apply stamp_ok_app. split; auto. rewrite W1. simpl. auto.
+      * rewrite walk_app, W1. simpl. unfold nxe, nxs. rewrite Qt, T. reflexivity.
+  - split; [lia|]. split; [lia|].
+    intro G. rewrite filter_enc_snoc.
+    destruct (Hg G) as [(E0 & F0)|(E1 & S1 & W1)].
+    + left. assert (En : enc q = false) by (unfold enc; rewrite Qe, E0; reflexivity).
+      rewrite En, F0. simpl. auto.
+    + right. split; auto.
+      assert (En : enc q = true) by (unfold enc; rewrite Qe; destruct (ep_out st =? 0) eqn:X; auto; lia).
+      rewrite En. split.
+      * apply stamp_ok_app. split; auto. rewrite W1. simpl. auto.
+      * rewrite walk_app, W1. simpl. unfold nxe, nxs. rewrite Qt, T. reflexivity.
+Qed.
+
+Lemma emit_IS c ts : forall st st' ps pre,
+  IS (seq_out st) (ep_out st) (g_out st) pre ->
+  emit c st ts = (st', ps) ->
+  Z.of_nat (length (pre ++ ps)) < SEQ_MOD ->
+  IS (seq_out st') (ep_out st') (g_out st') (pre ++ ps).
+Proof.
+  induction ts as [|t r IH]; intros st st' ps pre HI H Hlen; simpl in H.
+  - inversion H; subst. rewrite app_nil_r. auto.
+  - destruct (send1 c st t) as [st1 q] eqn:E1. destruct (emit c st1 r) as [st2 ps2] eqn:E2.
+    inversion H; subst st2 ps. clear H.
+    rewrite app_length in Hlen. simpl in Hlen.
+    replace (pre ++ q :: ps2) with ((pre ++ [q]) ++ ps2) by (rewrite <- app_assoc; reflexivity).
+    eapply IH; [|exact E2|].
+    + eapply send1_IS; eauto. lia.
+    + rewrite !app_length. simpl. lia.
+Qed.
+
+Lemma do_input_IS mac_ok c st i o st' outs pre :
+  IS (seq_out st) (ep_out st) (g_out st) pre ->
+  do_input mac_ok c st i = (o, st', outs) ->
+  Z.of_nat (length (pre ++ outs)) < SEQ_MOD ->
+  IS (seq_out st') (ep_out st') (g_out st') (pre ++ outs).
+Proof.
+  intros HI H Hlen. destruct i as [p|ts]; simpl in H.
+  - unfold step in H. destruct (readable mac_ok st p); simpl in H.
+    2:{ inversion H; subst. rewrite app_nil_r. auto. }
+    destruct (handle c _ p (seq_in st)) as [[o1 st1] sends] eqn:Eh.
+    destruct (emit c st1 sends) as [st2 outs2] eqn:Ee.
+    inversion H; subst. apply handle_out_frame in Eh. simpl in Eh. destruct Eh as (A & B & C).
+    apply (emit_IS c sends st1 st' outs pre); auto. rewrite A, B, C. exact HI.
+  - destruct (local c st ts) as [sl ol] eqn:El. inversion H; subst.
+    unfold local in El. apply (emit_IS c ts _ st' outs pre) in El; auto.
+    destruct (mem MSG_KEXINIT ts); simpl; exact HI.
+Qed.
+
+Lemma peer_run_IS mac_ok c ins : forall st o st' outs pre,
+  IS (seq_out st) (ep_out st) (g_out st) pre ->
+  peer_run mac_ok c st ins = (o, st', outs) ->
+  Z.of_nat (length (pre ++ outs)) < SEQ_MOD ->
+  IS (seq_out st') (ep_out st') (g_out st') (pre ++ outs).
+Proof.
+  induction ins as [|i r IH]; intros st o st' outs pre HI H Hlen; simpl in H.
+  - inversion H; subst. rewrite app_nil_r. auto.
+  - destruct (do_input mac_ok c st i) as [[o1 st1] outs1] eqn:Ed.
+    assert (Step : forall tl, Z.of_nat (length (pre ++ outs1 ++ tl)) < SEQ_MOD ->
+                   IS (seq_out st1) (ep_out st1) (g_out st1) (pre ++ outs1)).
+    { intros tl Hl. eapply do_input_IS; eauto. rewrite !app_length in *. lia. }
+    destruct o1;
+      try (inversion H; subst; apply (Step []); rewrite app_nil_r; auto).
+    destruct (peer_run mac_ok c st1 r) as [[o2 st2] outs2] eqn:Er.
+    inversion H; subst. rewrite app_assoc.
+    eapply IH; [apply (Step outs2); auto|exact Er|rewrite <- app_assoc; auto].
+Qed.
+
+Lemma session_IS mac_ok c ins o st outs :
+  session mac_ok c ins = (o, st, outs) ->
+  Z.of_nat (length outs) < SEQ_MOD ->
+  IS (seq_out st) (ep_out st) (g_out st) outs.
+Proof.
+  unfold session. destruct (start c) as [st0 outs0] eqn:Es.
+  destruct (peer_run mac_ok c st0 ins) as [[o1 st1] outs1] eqn:Er.
+  intros H Hlen. inversion H; subst.
+  eapply peer_run_IS; [|exact Er|auto].
+  unfold start in Es.
+  change outs0 with ([] ++ outs0).
+  eapply emit_IS; [|exact Es|].
+  - unfold IS. simpl. split; [lia|]. split; [lia|]. intros _. left. auto.
+  - simpl. rewrite app_length in Hlen. lia.
+Qed.
+
+Lemma sender_stamps mac_ok c ins o st outs :
+  session mac_ok c ins = (o, st, outs) ->
+  Z.of_nat (length outs) < SEQ_MOD -> g_out st = true ->
+  stamp_ok 1 0 (filter enc outs).
+Proof.
+  intros H Hl G. destruct (session_IS _ _ _ _ _ _ H Hl) as (_ & _ & K).
+  destruct (K G) as [(_ & F)|(_ & S & _)]; [rewrite F; simpl; auto|auto].
+Qed.
+
+(* ---- the receiver ---- *)
+Section Receiver.
+  Variable mac_ok : Z -> Z -> pkt -> bool.
+  Hypothesis Hmac : mac_binds mac_ok.
+  Variable E : list pkt.                       (* the sender's protected packets, in order *)
+  Hypothesis HE : stamp_ok 1 0 E.
+  Hypothesis HEl : Z.of_nat (length E) < SEQ_MOD.
+
+  Definition IR (st : peer) (acc : list pkt) : Prop :=
+    g_in st = true ->
+    (ep_in st = 0 /\ acc = []) \/
+    (1 <= ep_in st /\ (exists rest, E = acc ++ rest) /\ walk 1 0 acc = (ep_in st, seq_in st)).
+
+  Lemma step_IR c st p st' outs acc :
+    IR st acc -> step mac_ok c st p = (Continue, st', outs) ->
+    (enc p = true -> In p E) ->
+    IR st' (acc ++ (if enc p then [p] else [])).
+  Proof.
+    intros HI H Hin. unfold step in H.
+    destruct (readable mac_ok st p) eqn:R; simpl in H; [|discriminate].
+    set (st0 := set_in st ((seq_in st + 1) mod SEQ_MOD) (ep_in st) (g_in st) (nrecv st + 1)) in *.
+    destruct (handle c st0 p (seq_in st)) as [[o st1] sends] eqn:Eh.
+    destruct (emit c st1 sends) as [st2 outs2] eqn:Ee.
+    inversion H; subst o st2 outs2. clear H.
+    apply emit_frame in Ee. destruct Ee as (_ & _ & _ & _ & _ & F6 & F7 & F8 & _).
+    apply handle_in_effect in Eh.
+    unfold readable in R. apply andb_true_iff in R. destruct R as [Racc _].
+    unfold accepts in Racc.
+    intro G. rewrite F8 in G.
+    assert (G0 : g_in st = true /\ (p_type p = MSG_NEWKEYS -> agreed st = true)).
+    { destruct (p_type p =? MSG_NEWKEYS) eqn:T.
+      - destruct Eh as (_ & Gg & _). rewrite Gg in G. subst st0. simpl in G.
+        apply andb_true_iff in G. tauto.
+      - destruct Eh as (_ & _ & Gg). rewrite Gg in G. subst st0. simpl in G.
+        split; auto. intro X. rewrite X in T. discriminate. }
+    destruct G0 as [G0 Hag].
+    destruct (HI G0) as [(E0 & A0)|(E1 & (rest & Hrest) & W)].
+    - (* no inbound cipher yet: only an unprotected packet is read *)
+      rewrite E0 in Racc. simpl in Racc.
+      assert (En : enc p = false) by (unfold enc; rewrite Racc; reflexivity).
+      rewrite En, A0. simpl.
+      destruct (p_type p =? MSG_NEWKEYS) eqn:T.
+      + destruct Eh as (Ep & _ & Sq & _). right. rewrite F6, F7.
+        apply Z.eqb_eq in T. specialize (Hag T).
+        subst st0. simpl in *. rewrite Ep, E0. rewrite (Sq Hag).
+        split; [lia|]. split; [exists E; reflexivity|reflexivity].
+      + destruct Eh as (Ep & _ & _). left. rewrite F7, Ep. subst st0. simpl. auto.
+    - (* inbound cipher on: the MAC verified under (ep_in, seq_in) *)
+      assert (Ene : (ep_in st =? 0) = false) by (apply Z.eqb_neq; lia).
+      rewrite Ene in Racc.
+      destruct (Hmac (ep_in st) (seq_in st) p) as [Pe Ps]; [lia|auto|].
+      assert (En : enc p = true) by (unfold enc; rewrite Pe, Ene; reflexivity).
+      rewrite En. specialize (Hin En).
+      rewrite Hrest in HE. apply stamp_ok_app in HE. destruct HE as [Sacc Srest].
+      rewrite W in Srest. simpl in Srest.
+      destruct (walk_mono acc 1 0 ltac:(lia)) as [_ Wn]. rewrite W in Wn. simpl in Wn.
+      rewrite Hrest in Hin. apply in_app_or in Hin.
+      assert (Hhd : exists rest', rest = p :: rest').
+      { destruct Hin as [Hin|Hin].
+        - pose proof (stamp_behind _ _ _ Sacc ltac:(lia) p Hin) as L. rewrite W in L. simpl in L.
+          unfold lexlt in L. lia.
+        - destruct rest as [|r0 rest']; [destruct Hin|].
+          destruct Hin as [->|Hin]; [eauto|].
+          pose proof (stamp_tail_ahead _ _ _ _ Srest Wn p Hin) as L. unfold lexlt in L. lia. }
+      destruct Hhd as [rest' ->].
+      assert (Hb : seq_in st + 1 < SEQ_MOD).
+      { pose proof HE as HE'. clear HE'.
+        assert (In p E) by (rewrite Hrest; apply in_or_app; right; left; reflexivity).
+        assert (SE : stamp_ok 1 0 E) by (rewrite Hrest; apply stamp_ok_app; split; auto; rewrite W; auto).
+        pose proof (stamp_bound _ _ _ SE ltac:(lia) p H). lia. }
+      right. rewrite F6, F7.
+      split; [|split].
+      + destruct (p_type p =? MSG_NEWKEYS); [destruct Eh as (Ep & _)|destruct Eh as (Ep & _)];
+          rewrite Ep; subst st0; simpl; lia.
+      + exists rest'. rewrite Hrest. rewrite <- app_assoc. reflexivity.
+      + rewrite walk_app, W. simpl. unfold nxe, nxs.
+        destruct (p_type p =? MSG_NEWKEYS) eqn:T.
+        * destruct Eh as (Ep & _ & Sq & _). apply Z.eqb_eq in T. specialize (Hag T).
+          rewrite Ep. subst st0. simpl in *. rewrite (Sq Hag). reflexivity.
+        * destruct Eh as (Ep & Sq & _). rewrite Ep, Sq. subst st0. simpl.
+          rewrite Z.mod_small by lia. reflexivity.
+  Qed.
+
+  Lemma peer_run_IR c ins : forall st st' outs acc,
+    IR st acc -> peer_run mac_ok c st ins = (Continue, st', outs) ->
+    (forall p, In p (recvs ins) -> enc p = true -> In p E) ->
+    IR st' (acc ++ filter enc (recvs ins)).
+  Proof.
+    induction ins as [|i r IH]; intros st st' outs acc HI H Hin; simpl in H.
+    - inversion H; subst. simpl. rewrite app_nil_r. auto.
+    - destruct (do_input mac_ok c st i) as [[o st1] outs1] eqn:Ed.
+      destruct o; try discriminate.
+      destruct (peer_run mac_ok c st1 r) as [[o2 st2] outs2] eqn:Er.
+      inversion H; subst o2 st2 outs. clear H.
+      destruct i as [p|ts]; simpl in Ed.
+      + simpl.
+        replace (acc ++ (if enc p then p :: filter enc (recvs r) else filter enc (recvs r)))
+          with ((acc ++ (if enc p then [p] else [])) ++ filter enc (recvs r))
+          by (destruct (enc p); rewrite <- app_assoc; reflexivity).
+        eapply IH; [|exact Er|].
+        * eapply step_IR; eauto. intro. apply Hin; simpl; auto.
+        * intros q Hq. apply Hin. simpl. auto.
+      + simpl. destruct (local c st ts) as [sl ol] eqn:El. inversion Ed; subst.
+        eapply IH; [|exact Er|auto].
+        unfold local in El. apply emit_frame in El.
+        destruct El as (_ & _ & _ & _ & _ & F6 & F7 & F8 & _).
+        unfold IR. rewrite F6, F7, F8.
+        destruct (mem MSG_KEXINIT ts); simpl; exact HI.
+  Qed.
+End Receiver.
+
+Lemma filter_length_le {A} (f : A -> bool) l : (length (filter f l) <= length l)%nat.
+Proof. induction l; simpl; [lia|]. destruct (f a); simpl; lia. Qed.
+
+Lemma no_shift mac_ok :
+  mac_binds mac_ok ->
+  forall cS cR insS insR oS stS outsS stR outsR,
+    session mac_ok cS insS = (oS, stS, outsS) ->
+    session mac_ok cR insR = (Continue, stR, outsR) ->
+    (forall p, In p (recvs insR) -> p_epoch p <> 0 -> In p outsS) ->
+    g_out stS = true -> g_in stR = true ->
+    Z.of_nat (length outsS) < SEQ_MOD ->
+    exists rest, filter enc outsS = filter enc (recvs insR) ++ rest.
+Proof.
+  intros Hmac cS cR insS insR oS stS outsS stR outsR HS HR Hin GS GR Hlen.
+  pose proof (sender_stamps _ _ _ _ _ _ HS Hlen GS) as HE.
+  assert (HEl : Z.of_nat (length (filter enc outsS)) < SEQ_MOD).
+  { pose proof (filter_length_le enc outsS). lia. }
+  unfold session in HR. destruct (start cR) as [st0 outs0] eqn:Es.
+  destruct (peer_run mac_ok cR st0 insR) as [[o1 st1] outs1] eqn:Er.
+  inversion HR; subst o1 st1 outsR. clear HR.
+  assert (I0 : IR (filter enc outsS) st0 []).
+  { unfold start in Es. apply emit_frame in Es. destruct Es as (_ & _ & _ & _ & _ & F6 & F7 & F8 & _).
+    intros _. left. rewrite F7. simpl. auto. }
+  pose proof (peer_run_IR mac_ok Hmac (filter enc outsS) HE HEl cR insR st0 stR outs1 [] I0 Er) as K.
+  simpl in K.
+  assert (Hin' : forall p, In p (recvs insR) -> enc p = true -> In p (filter enc outsS)).
+  { intros p Hp En. apply filter_In. split; auto. apply Hin; auto.
+    unfold enc in En. apply negb_true_iff in En. apply Z.eqb_neq in En. auto. }
+  destruct (K Hin' GR) as [(_ & A)|(_ & (rest & Hr) & _)].
+  - rewrite A. exists (filter enc outsS). reflexivity.
+  - exists rest. auto.
+Qed.
+
+(* edit scripts are a special case of the man-in-the-middle streams above *)
+Lemma apply_edits_in es : forall l p,
+  ins_plain es = true -> In p (apply_edits es l) -> p_epoch p <> 0 -> In p l.
+Proof.
+  induction es as [|e es IH]; intros l p Hp Hin Hne; simpl in *; auto.
+  destruct e as [| |q].
+  - destruct l as [|x l']; simpl in Hin.
+    + exfalso. exact (IH [] p Hp Hin Hne).
+    + destruct Hin as [->|Hin]; [left; auto|right; eapply IH; eauto].
+  - destruct l as [|x l'].
+    + exfalso. exact (IH [] p Hp Hin Hne).
+    + right. eapply IH; eauto.
+  - apply andb_true_iff in Hp. destruct Hp as [Hq Hp].
+    destruct Hin as [->|Hin]; [apply Z.eqb_eq in Hq; congruence|eapply IH; eauto].
+Qed.
+
+Lemma no_shift_edits mac_ok :
+  mac_binds mac_ok ->
+  forall cS cR insS insR es oS stS outsS stR outsR,
+    session mac_ok cS insS = (oS, stS, outsS) ->
+    session mac_ok cR insR = (Continue, stR, outsR) ->
+    recvs insR = apply_edits es outsS -> ins_plain es = true ->
+    g_out stS = true -> g_in stR = true ->
+    Z.of_nat (length outsS) < SEQ_MOD ->
+    exists rest, filter enc outsS = filter enc (recvs insR) ++ rest.
+Proof.
+  intros Hmac cS cR insS insR es oS stS outsS stR outsR HS HR Hed Hpl GS GR Hlen.
+  eapply no_shift; eauto.
+  intros p Hp Hne. rewrite Hed in Hp. eapply apply_edits_in; eauto.
+Qed.
+
+(* the k-th packet of the first protected epoch carries sequence number k *)
+Lemma stamp_epoch_ge l : forall e s, stamp_ok e s l -> forall r, In r l -> e <= p_epoch r.
+Proof.
+  induction l as [|p l IH]; intros e s H r Hin; simpl in *; [tauto|].
+  destruct H as (He & _ & Hr). destruct Hin as [->|Hin]; [lia|].
+  specialize (IH _ _ Hr r Hin). unfold nxe in IH. destruct (p_type p =? MSG_NEWKEYS); lia.
+Qed.
+
+Lemma stamp_kth l : forall e s k p, stamp_ok e s l ->
+  nth_error (filter (fun q => p_epoch q =? e) l) k = Some p -> p_mseq p = s + Z.of_nat k.
+Proof.
+  induction l as [|x l IH]; intros e s k p H Hn; simpl in *.
+  - destruct k; discriminate.
+  - destruct H as (He & Hs & Hr). rewrite He, Z.eqb_refl in Hn.
+    destruct k as [|k]; simpl in Hn.
+    + inversion Hn; subst. lia.
+    + unfold nxe, nxs in Hr. destruct (p_type x =? MSG_NEWKEYS) eqn:T.
+      * exfalso. assert (Hin : In p (filter (fun q => p_epoch q =? e) l)) by (eapply nth_error_In; eauto).
+        apply filter_In in Hin. destruct Hin as [Hin Heq]. apply Z.eqb_eq in Heq.
+        pose proof (stamp_epoch_ge _ _ _ Hr p Hin). lia.
+      * rewrite (IH e (s + 1) k p Hr Hn). lia.
+Qed.
+
+Lemma filter_filter_epoch1 l :
+  filter (fun q => p_epoch q =? 1) (filter enc l) = filter (fun q => p_epoch q =? 1) l.
+Proof.
+  induction l as [|x l IH]; simpl; auto.
+  unfold enc at 1. destruct (p_epoch x =? 0) eqn:E0; simpl.
+  - apply Z.eqb_eq in E0. rewrite E0. simpl. auto.
+  - rewrite IH. reflexivity.
+Qed.
+
+Lemma sender_kth mac_ok c ins o st outs k p :
+  session mac_ok c ins = (o, st, outs) ->
+  Z.of_nat (length outs) < SEQ_MOD -> g_out st = true ->
+  nth_error (filter (fun q => p_epoch q =? 1) outs) k = Some p -> p_mseq p = Z.of_nat k.
+Proof.
+  intros H Hl G Hn. pose proof (sender_stamps _ _ _ _ _ _ H Hl G) as S.
+  rewrite <- filter_filter_epoch1 in Hn.
+  rewrite (stamp_kth _ _ _ _ _ S Hn). lia.
+Qed.
+
+(* ---------------------------------------------------------------------------------------- *)
+(* packaging *)
+
+Lemma seq_reset_all mac_ok c st p :
+  (forall st' outs, step mac_ok c st p = (Continue, st', outs) ->
+     p_type p = MSG_NEWKEYS -> agreed st = true -> seq_in st' = 0 /\ ep_in st' = ep_in st + 1) /\
+  (forall o st' outs i q, step mac_ok c st p = (o, st', outs) -> agreed st' = true ->
+     nth_error outs i = Some q -> p_type q = MSG_NEWKEYS ->
+     match nth_error outs (S i) with Some r => p_mseq r = 0 | None => seq_out st' = 0 end) /\
+  (agreed st = true ->
+     let '(st', q) := send1 c st MSG_NEWKEYS in
+     p_type q = MSG_NEWKEYS /\ p_mseq q = seq_out st /\ seq_out st' = 0 /\ ep_out st' = ep_out st + 1).
+Proof.
+  split; [|split].
+  - intros. eapply seq_reset_in; eauto.
+  - intros. eapply seq_reset_step; eauto.
+  - apply seq_reset_out.
+Qed.
+
+Lemma mac_ideal_binds : mac_binds mac_ideal.
+Proof.
+  intros e s p _ H. unfold mac_ideal in H. apply andb_true_iff in H. destruct H as [A B].
+  apply Z.eqb_eq in A. apply Z.eqb_eq in B. auto.
+Qed.
+
+(* Terrapin when strict kex is off: IGNORE injected ahead of the server's NEWKEYS, the server's first
+   protected packet (EXT_INFO, seq 3) deleted: nobody notices, the client reads the server's packets
+   numbered 4, 5 as its own 4, 5 although one packet is missing *)
+Definition terrapin_script : script := [(false, 2, 2); (false, 3, -1)].
+
+Lemma nonstrict_shift :
+  let n := scenario (cfg_of Client KDH false true) (cfg_of Server KDH false true) terrapin_script false in
+  o_c n = Continue /\ o_s n = Continue /\
+  tx_s n = [20; 0; 31; 1; 21; 2; 7; 3; 6; 4; 52; 5] /\
+  rx_c n = [20; 0; 31; 1; 2; 2; 21; 3; 6; 4; 52; 5].
+Proof. vm_compute. repeat split; reflexivity. Qed.
+
+Lemma strict_no_shift_same_script :
+  let n := scenario (cfg_of Client KDH true true) (cfg_of Server KDH true true) terrapin_script false in
+  o_c n = AbortMOE /\ rx_c n = [20; 0; 31; 1; 2; 2].
+Proof. vm_compute. repeat split; reflexivity. Qed.
